@@ -27,7 +27,18 @@ var allFormats = []gozxing.BarcodeFormat{
 }
 
 func c12Content(rng *fw.Rand, ws *writerSpec) string {
-	switch rng.Intn(14) {
+	switch rng.Intn(15) {
+	case 14: // decimal digits outside ASCII, alone and mixed with ASCII digits (even byte lengths included)
+		alt := []string{"\u0661", "\u0662", "\uff11", "\uff19", "\u0967"}
+		var sb strings.Builder
+		for i, n := 0, 1+rng.Intn(12); i < n; i++ {
+			if rng.Bool() {
+				sb.WriteString(alt[rng.Intn(len(alt))])
+			} else {
+				sb.WriteByte(byte('0' + rng.Intn(10)))
+			}
+		}
+		return sb.String()
 	case 0:
 		return ""
 	case 1:
